@@ -82,6 +82,10 @@ RECURSIVE InitAll(_, _)
 InitAll(s, B) == IF s.pendingInit = <<>> THEN s
                  ELSE LET c == Head(s.pendingInit) IN InitAll(DoChildInit(s, c, InitCalls(B, c)), B)
 
+RECURSIVE InitSeen(_, _, _)
+InitSeen(s, B, sn) == IF s.pc \notin {"init", "loop"} \/ s.pendingInit = <<>> \/ Head(s.pendingInit) \notin SnapIds(sn) THEN s
+                      ELSE LET c == Head(s.pendingInit) IN InitSeen(DoChildInit(s, c, InitCalls(B, c)), B, sn)
+
 \* control position forced to the observation point when the model could not get there by itself
 Force(s, e) ==
     CASE e.e = "gsc" /\ e.by = "deme" ->
@@ -107,7 +111,7 @@ Force(s, e) ==
 \* the sentences of C05 about run(); every other clause keeps applying to what the tree does in those steps.
 Manual(s) == s.cfg.manual = 1
 ImplicitLoopHead(s, e) ==
-    IF (s.pc \in {"loop", "sprout"} \/ (Manual(s) /\ s.pc = "done")) /\ e.e \in {"gsc", "lsc"} /\ (e.e = "lsc" \/ e.by # "run")
+    IF (s.pc \in {"loop", "sprout"} \/ (Manual(s) /\ s.pc = "done")) /\ e.e \in {"gsc", "lsc"} /\ (e.e = "lsc" \/ e.by \notin {"run", "other"})
     THEN LET s0 == IF s.pc \in {"sprout", "done"} THEN [s EXCEPT !.pc = "loop"] ELSE s
              s1 == InitAll(s0, e.b)
          IN R(DoLoopCheck(s1, FALSE),
@@ -144,14 +148,23 @@ PreAt(s, e) ==
            LET a == Advance(s, e.b, e.snap, NoDeme, {}) IN
            IF EnPostGsc(a.st) THEN a ELSE R(Force(a.st, e), a.errs \cup {"Desync"})
       [] e.e = "gsc" /\ e.by = "run" ->
-           LET s0 == IF s.pc = "sprout" THEN [s EXCEPT !.pc = "loop"] ELSE s     \* no round was attempted
+           \* the condition may be asked more than once at the same boundary (by run() and by whoever drives the tree):
+           \* when the observed counter shows that the step the model began at the previous consult has not begun, or
+           \* the run has ended at this very boundary, the consult is one more observation of the same boundary
+           LET sA == IF s.pc = "meta" /\ s.cur = NoDeme /\ s.stepCalls = 0 /\ s.D = s.D0 /\ e.snap.mc = s.mc - 1 /\ e.b = <<>>
+                     THEN [s EXCEPT !.pc = "loop", !.mc = @ - 1, !.steps = @ - 1, !.queue = <<>>]
+                     ELSE IF s.pc = "done" /\ e.snap.mc = s.mc /\ e.b = <<>> THEN [s EXCEPT !.pc = "loop"]
+                     ELSE s
+               s0 == IF sA.pc = "sprout" THEN [sA EXCEPT !.pc = "loop"] ELSE sA     \* no round was attempted
                s1 == IF s0.pc \in {"init", "loop"} THEN InitAll(s0, e.b) ELSE s0
            IN IF EnLoopCheck(s1) THEN R(s1, {}) ELSE R(Force(s1, e), {"Desync"})
       [] e.e = "sprout" ->
            IF EnSprout(s) THEN R(s, {}) ELSE R(Force(s, e), {"Desync"})
       [] e.e = "end" ->     \* run() returned: the global condition must have been seen true at a metaepoch boundary
            R(s, IF Manual(s) \/ s.pc = "done" \/ (s.pc = "loop" /\ s.gscSeen /\ s.pendingInit = <<>>) THEN {} ELSE {"C05_DoneImpliesGsc"})
-      [] e.e = "gsc" /\ e.by = "other" -> R(s, {})      \* out-of-protocol consult: nothing is assumed about the position
+      \* consult from outside the protocol (e.g. between two children of a sprouting round): nothing is assumed about the
+      \* position; the children of the round that the observed tree already holds have evaluated their initial populations
+      [] e.e = "gsc" /\ e.by = "other" -> R(InitSeen(s, e.b, e.snap), {})
       [] e.e = "start" -> R(InitAll(s, e.b), {})
       [] e.e \in {"report", "dump"} ->      \* probes at the loop head (before the loop-head consult)
            LET s0 == IF s.pc = "sprout" THEN [s EXCEPT !.pc = "loop"] ELSE s
